@@ -16,7 +16,8 @@ MAXLAT = 100            # empty reads a conforming board may put before each lin
 
 # the four kinds pyserial raises, and RuntimeError, which the library's own except clauses name
 EXCS = ("SerialException", "PortNotOpenError", "SerialTimeoutException", "OSError",
-        "RuntimeError")
+        "RuntimeError", "OSError_EAGAIN",
+        "InterruptedError", "BrokenPipeError")
 PROFILE = Profile(write_exc=EXCS, read_exc=EXCS, latency=(0, 1, MAXLAT, MAXLAT + 1),
                   content=("err",), silent=True, read_window=3, late={MAXLAT, MAXLAT + 1})
 # sequences: conforming latencies plus the cheap faults
@@ -26,7 +27,13 @@ SEQ_PROFILE = Profile(write_exc=("SerialException",), read_exc=("SerialException
 
 OK_QUERIES = ["QB", "QP", "QS", "QC", "QL", "QT"]
 NO_OK_QUERIES = ["V", "v", "QM", "QG", "PI,E,0", "I", "A", "MR"]
-COMMANDS = ["EM,1,1", "SP,1,100", "SL,7", "RB", "ST,{bench}", "ST,{0}%s"]   # free text in a name
+COMMANDS = ["EM,1,1", "SP,1,100", "SL,7", "RB", "ST,{bench}", "ST,{0}%s",   # free text in a name
+            # low-level moves of 63, 64, 65 and 75 characters with their CR (a USB packet is 64)
+            "LM,2147483647,-2147483648,-2147483648,2147483647,-2147483648,1",
+            "LM,2147483647,-2147483648,-2147483648,2147483647,-2147483648,12",
+            "LM,2147483647,-2147483648,-2147483648,2147483647,-2147483648,123",
+            "LM,2147483647,-2147483648,-2147483648,2147483647,-2147483648,-2147483648,3"]
+assert [len(c) + 1 for c in COMMANDS[-4:]] == [63, 64, 65, 75]
 
 ALPHABET = [("query", q + "\r") for q in OK_QUERIES + NO_OK_QUERIES] + \
            [("command", c + "\r") for c in COMMANDS]
@@ -117,9 +124,14 @@ def execute(chooser, ops, profile, board_kwargs=None):
         if len(ports) > 1 and len(other.write_attempts) != other_0:
             viols.append((f"crosswrite:{ckey}", f"{where}: the *other* port was handed "
                           f"{other.write_attempts[other_0:]!r}"))
-        if len(attempts) != 1 or attempts[0] != text.encode("ascii"):
+        # the bytes on the wire decide: the request goes out once, whole - possibly handed to
+        # the port in several pieces (and up to the piece that raised, if a write raised)
+        want = text.encode("ascii")
+        sent = b"".join(attempts)
+        wrote_exc = any(k == "write_exc" for (_t, k, _v) in faults)
+        if not attempts or (sent != want and not (wrote_exc and want.startswith(sent))):
             viols.append((f"writes:{ckey}", f"{where}: write attempts {attempts!r}, expected "
-                          f"exactly one of {text.encode('ascii')!r}"))
+                          f"the bytes {want!r}, once"))
         if raised is None:
             if kind == "query" and not isinstance(ret, str):
                 viols.append((f"type:{ckey}", f"{where}: query returned {type(ret).__name__} "
@@ -304,6 +316,16 @@ def run(ctx):
     # seed: rotate job order only (all jobs are always run)
     part = core.fan_out(ctx, _explore_history, jobs)
     _trivial_cases(part)
+    # "each preceded by up to 100 empty reads" is an allowance per reply line, not per port: a
+    # long session on one port against a board that is a little slow every time
+    from .c06 import slow_session          # pylint: disable=import-outside-toplevel
+    for stall in (1, 2):
+        for length in (60, 140):
+            for msg in slow_session("legacy", stall, length):
+                part.violation(f"slow_session:legacy:{stall}:{length}", msg,
+                               {"kind": "slow_session", "layer": "legacy", "stall": stall,
+                                "length": length})
+            part.count("slow_sessions")
     samples = core.rotate(part.samples, ctx.seed, 3) + \
         core.rotate([{"ops": [list(o) for o in j[0]], "deviation_bound": j[1]}
                      for j in jobs], ctx.seed, 2)
@@ -349,6 +371,9 @@ def run(ctx):
 
 
 def replay(case):
+    if case.get("kind") == "slow_session":
+        from .c06 import slow_session      # pylint: disable=import-outside-toplevel
+        return slow_session(case["layer"], case["stall"], case["length"])
     if case.get("kind") == "none":
         part = core.Part()
         _trivial_cases(part)
